@@ -3,7 +3,7 @@
    DbGrid::_serialize / _deserialize    /repo/src/Db/DbGrid.cpp:740-807
    getLocatorName / locatorIdentify     /repo/src/Db/PtrGeos.cpp:100-126, 170-220   (table DEF_LOCATOR :27-56)
    Db::setLocatorByUID                  /repo/src/Db/Db.cpp:1136-1178  (PtrGeos::resize pads with 0, PtrGeos.hpp:37)
-   Db::resetDims, setNameByUID, correctNewNameForDuplicates   Db.cpp:512, 3112; String.cpp:182 *)
+   Db::resetDims, correctNamesForDuplicates                    Db.cpp:512; String.cpp:160 *)
 From Coq Require Import Ascii String.
 From Coq Require Import List ZArith QArith Bool Decimal.
 From Gst Require Import C08.Codec C08.Model.
@@ -43,10 +43,15 @@ Fixpoint prefixb (a w : word) : bool :=                                 (* strin
   | x :: a', y :: w' => Ascii.eqb x y && prefixb a' w'
   | _ :: _, [] => false
   end.
-Fixpoint find_loc (tbl : list (string * bool)) (k : nat) (w : word) : option (nat * string * bool) :=
+(* every keyword that starts the string matches; the longest one is retained ("facies1" is facies, not f) *)
+Fixpoint find_loc (tbl : list (string * bool)) (k : nat) (w : word) (best : option (nat * string * bool))
+  : option (nat * string * bool) :=
   match tbl with
-  | [] => None
-  | (s, u) :: r => if prefixb (W s) w then Some (k, s, u) else find_loc r (S k) w
+  | [] => best
+  | (s, u) :: r =>
+      let lbest := match best with Some (_, sb, _) => length (W sb) | None => O end in
+      if prefixb (W s) w && (lbest <? length (W s))%nat then find_loc r (S k) w (Some (k, s, u))
+      else find_loc r (S k) w best
   end.
 Definition atoi (w : word) : Z :=                                       (* optional sign, leading digits, else 0 *)
   let '(sgn, r) := match w with
@@ -58,7 +63,7 @@ Definition atoi (w : word) : Z :=                                       (* optio
 (* locatorIdentify: None = error (return 1) *)
 Definition loc_identify (w : word) : option lc :=
   let lw := map lower w in
-  match find_loc loc_table 0 lw with
+  match find_loc loc_table 0 lw None with
   | None => Some None
   | Some (t, s, uniq) =>
       let lng := length (W s) in
@@ -102,28 +107,19 @@ Definition replay_locators (ls : list lc) : list lc :=
   let p := set_locators (repeat [] nloc) 0 ls in
   map (fun i => locator_of p 0 (Z.of_nat i)) (seq 0 (length ls)).
 
-(* names: resetDims gives "New-1" ... "New-n" (generateMultipleNames, delimiter "-"), then setNameByUID(i, names[i]) one by one, each followed by
-   correctNewNameForDuplicates (append ".1" while another column has the same name) *)
-Definition default_names (n : nat) : list word := map (fun i => W "New-" ++ print_Z (Z.of_nat (S i))) (seq 0 n).
-Fixpoint count_same (w : word) (l : list word) (skip : nat) (k : nat) : nat :=
-  match l with
-  | [] => O
-  | x :: r => ((if Nat.eqb k skip then 0 else if weqb x w then 1 else 0) + count_same w r skip (S k))%nat
-  end.
-Fixpoint dedupe (fuel : nat) (l : list word) (rank : nat) : list word :=
+(* names: the names read replace the provisional ones all together, then correctNamesForDuplicates: from the second
+   name on, ".1" is appended to a name as long as it is equal to one of the previous names (String.cpp:160) *)
+Fixpoint fix_name (fuel : nat) (prev : list word) (w : word) : word :=
   match fuel with
-  | O => l
-  | S f => match nth_error l rank with
-           | None => l
-           | Some w => if Nat.eqb (count_same w l rank 0) 0 then l else dedupe f (set_nth rank (w ++ W ".1") l) rank
-           end
+  | O => w
+  | S f => if existsb (fun x => weqb w x) prev then fix_name f prev (w ++ W ".1") else w
   end.
-Fixpoint set_names (cur : list word) (i : nat) (names : list word) : list word :=
+Fixpoint correct_dups (prev : list word) (names : list word) : list word :=
   match names with
-  | [] => cur
-  | w :: r => set_names (dedupe (S (length cur)) (set_nth i w cur) i) (S i) r
+  | [] => []
+  | w :: r => let w' := fix_name (S (length prev)) prev w in w' :: correct_dups (prev ++ [w']) r
   end.
-Definition replay_names (names : list word) : list word := set_names (default_names (length names)) 0 names.
+Definition replay_names (names : list word) : list word := correct_dups [] names.
 
 (* ---------------------------------------------------------------- Db *)
 Record db := { db_nech : Z; db_names : list word; db_locs : list lc; db_rows : list (list dbl) }.
